@@ -211,15 +211,17 @@ VersWfC17(ev) ==
       cs == [i \in 1..n |-> [op |-> p.cons[i].op, pos |-> 2 * rank(i) - 1]]
       E0 == {i \in 1..n : M[n + 1][i] = 0}
       ppos == IF E0 # {} THEN 2 * rank(CHOOSE i \in E0 : TRUE) - 1 ELSE 2 * Cardinality({k \in 1..n : M[k][n + 1] < 0})
-      rec(why, want) == {[prop |-> "C17", why |-> why, text |-> ev.text, probe |-> ev.probe, scheme |-> p.scheme, ok |-> ev.ok,
-                          err |-> ev.err, want |-> want, msg |-> ev.msg, known |-> ""]} IN
+      \* pypi: PEP 440's default keeps pre-/dev-release probes out of ranges none of whose constraints names one
+      preOut == p.scheme = "pypi" /\ PIsPre(S2C(ev.probe)) /\ ~(\E i \in 1..n : PIsPre(S2C(p.cons[i].v)))
+      want == IF preOut THEN FALSE ELSE VDen(cs, ppos)
+      rec(why, w) == {[prop |-> "C17", why |-> why, text |-> ev.text, probe |-> ev.probe, scheme |-> p.scheme, ok |-> ev.ok,
+                          err |-> ev.err, want |-> w, msg |-> ev.msg, known |-> ""]} IN
   IF Len(ev.panics) > 0 THEN rec("panic", FALSE)
   ELSE IF p.loneStar THEN {}
   ELSE IF p.cons # ev.cons THEN rec("trace-inconsistent", FALSE)
   ELSE IF ~wf THEN (IF ev.err /\ ~ev.ok THEN {} ELSE rec(IF ev.err THEN "true-with-error" ELSE "ill-formed-accepted", FALSE))
   ELSE IF ev.err THEN rec("well-formed-rejected", TRUE)
-  ELSE IF p.scheme = "pypi" /\ ev.probe \in PypiPreProbes THEN {}
-  ELSE IF distinct /\ Alternates(cs) /\ ev.ok # VDen(cs, ppos) THEN rec("routing", VDen(cs, ppos))
+  ELSE IF distinct /\ Alternates(cs) /\ ev.ok # want THEN rec("routing", want)
   ELSE {}
 
 (* C18: String() is the input up to surrounding whitespace; the text parses again   *)
